@@ -65,7 +65,51 @@ type MessageSliceField struct{ A []uint8 }
 
 func (*MessageSliceField) GetID() uint32 { return 907 }
 
-var malformed = []message.Message{&NoPrefixHeartbeat{}, &MessageBadFieldType{}, &MessageBadFieldBool{}, &MessageEnumNotUint64{},
+// named field types without the mavenum tag (the codec only knows the predeclared types)
+type MessageNamedNoTag struct {
+	A uint8
+	B common.MAV_TYPE
+}
+
+func (*MessageNamedNoTag) GetID() uint32 { return 908 }
+
+type myU8 uint8
+type myF32 float32
+type myStr string
+
+type MessageNamedU8 struct{ A myU8 }
+
+func (*MessageNamedU8) GetID() uint32 { return 909 }
+
+type MessageNamedF32Array struct {
+	A uint16
+	B [2]myF32
+}
+
+func (*MessageNamedF32Array) GetID() uint32 { return 910 }
+
+type MessageNamedString struct {
+	A myStr `mavlen:"4"`
+}
+
+func (*MessageNamedString) GetID() uint32 { return 911 }
+
+type MessagePointerField struct{ A *uint8 }
+
+func (*MessagePointerField) GetID() uint32 { return 912 }
+
+type MessageStructField struct{ A struct{ X uint8 } }
+
+func (*MessageStructField) GetID() uint32 { return 913 }
+
+type MessageEnumBadWidth struct {
+	A common.MAV_TYPE `mavenum:"int16"`
+}
+
+func (*MessageEnumBadWidth) GetID() uint32 { return 914 }
+
+var malformed = []message.Message{&MessageNamedNoTag{}, &MessageNamedU8{}, &MessageNamedF32Array{}, &MessageNamedString{},
+	&MessagePointerField{}, &MessageStructField{}, &MessageEnumBadWidth{},&NoPrefixHeartbeat{}, &MessageBadFieldType{}, &MessageBadFieldBool{}, &MessageEnumNotUint64{},
 	&MessageBadMavenum{}, &MessageBadMavenumName{}, &MessageBadMavlen{}, &MessageSliceField{}}
 
 // MessageDupOfPing has the id of PING.
